@@ -123,6 +123,7 @@ def units():
 
 
 META = dict(
+    technique='CBMC 6.11 function contracts (dfcc) on the extracted array wrappers with std::vector / shared_ptr reference models',
     level="proof",
     level_text="AbstractArray/ArrayView/OwnedArray/FixedArray operations are extracted from /repo and proved by CBMC against contracts over the representation (ptr, numItems) for buffers of ANY length up to 10^6 elements (symbolic size, heap-allocated in the harness): size()/data()/begin()/end() consistent, at(i) returns &data()[i] exactly for i < size() and otherwise throws, views alias their source exactly, setPtr(p,0) gives null, and the OwnedArray representation invariant (exposed ptr/numItems == own vector's data()/size()) holds after every constructor, assignment, reset and resize, including the compiler-generated copy operations; FixedArray constructors allocate a fresh block of exactly the requested size.",
     level_note="std::vector is modelled as the owner of one heap block whose mutators are assumed contracts (fresh block of exactly n elements); std::shared_ptr as an exact reference-counting model; memcpy by an assumed contract whose precondition (both ranges valid) is checked at each call; allocation never fails. Element VALUES (copies preserve contents) are not tracked. Buffer length bound 10^6 elements is a harness bound on the symbolic size, not an unrolling bound.",
